@@ -161,6 +161,9 @@ pub struct Th {
     /// the published stream list this thread loaded in its current library operation (0 = none): it may still
     /// dereference it
     pub hold: usize,
+    /// the list this thread held when it wrote the current epoch into a token (0 = none): acknowledging an
+    /// epoch change while a list is held is only harmless if the list is not used afterwards
+    pub risky: usize,
     /// ops executed since the last observable change by any thread
     pub since: usize,
 }
@@ -462,6 +465,7 @@ impl Rt {
                 solo_mark: None,
                 tokenless: false,
                 hold: 0,
+                risky: 0,
                 since: 0,
             })
             .collect();
@@ -750,6 +754,13 @@ impl Rt {
         }
         if addr != 0 {
             if addr == st.gptr_addr {
+                if kind == K::Shim(OpKind::Cas) && st.th[tid].risky != 0 && st.active && !st.abort {
+                    // MQMemImplMC, mutant AnnounceAfterLoad: the thread acknowledged an epoch change while it held a
+                    // stream list and now goes on working from that list (compare-exchange without a fresh load)
+                    let blk = st.th[tid].risky;
+                    st.api.push(json!({"e":"lateannounce","t":tid,"blk":(blk & 0x3fff_ffff)}));
+                }
+                st.th[tid].risky = 0;
                 match kind {
                     K::Shim(OpKind::Load) => st.th[tid].hold = val,
                     K::Shim(OpKind::Cas) if !ok => st.th[tid].hold = val,
@@ -758,6 +769,9 @@ impl Rt {
             } else if addr == st.signal_addr && kind == K::Shim(OpKind::Load) {
                 // a new library operation starts: nothing is held over from the previous one
                 st.th[tid].hold = 0;
+                st.th[tid].risky = 0;
+            } else if kind == K::Shim(OpKind::Store) && st.th[tid].hold != 0 && st.tokens.contains_key(&addr) {
+                st.th[tid].risky = st.th[tid].hold;
             } else if addr == st.mm_lock_addr && kind == K::Shim(OpKind::MutexUnlock) {
                 // sections under the manager's lock are never entered while a list is still in use
                 st.th[tid].hold = 0;
